@@ -12,7 +12,7 @@ pub fn session(rng: &mut Rng) -> (Vec<String>, Vec<String>) {
     ];
     let nb = 2 + rng.below(4);
     for b in 0..nb {
-        let t = rng.below(9);
+        let t = rng.below(11);
         tags.push(format!("alloc-t{}", t));
         let u = b + 1;
         match t {
@@ -75,6 +75,28 @@ pub fn session(rng: &mut Rng) -> (Vec<String>, Vec<String>) {
                 f.push(format!("(if (< c{u} 2) (begin (set! c{u} (+ c{u} 1)) (k{u} c{u})) 'done)", u = u));
                 f.push(format!("(if (< c{u} 2) (begin (set! c{u} (+ c{u} 1)) (k{u} c{u})) 'done)", u = u));
             }
+            9 => {
+                // constants that only the code refers to: the symbol / string tail of an improper quasiquote
+                // template, a quoted list, a string literal; used again after allocation
+                f.push(format!("(define (tpl{u} x) `(,x . marker{u}))", u = u));
+                f.push(format!("(define (tps{u} x) `(,x ,(+ x 1) . \"tail{u}\"))", u = u));
+                f.push(format!("(define (tpq{u}) '(q{u} (r{u} . s{u}) #(v{u})))", u = u));
+                f.push(format!("(tpl{u} {n})", u = u, n = n));
+                f.push(format!("(build-list {})", n * 3));
+                f.push(format!("(list (tpl{u} {m}) (tps{u} {m}) (tpq{u}))", u = u, m = m));
+                f.push(format!("(build-list {})", n * 2));
+                f.push(format!("(list (cdr (tpl{u} 1)) (cdr (cdr (tps{u} 2))) (eq? (car (tpq{u})) 'q{u}))", u = u));
+            }
+            10 => {
+                // rest-argument lists: every variadic call builds its own list, ended by the empty list
+                f.push(format!("(define (rest{u} . r) r)", u = u));
+                f.push(format!("(define (first-rest{u} a . r) (list a r))", u = u));
+                f.push(format!("(rest{u})", u = u));
+                f.push(format!("(build-list {})", n * 2));
+                f.push(format!("(list (rest{u}) (rest{u} 1) (rest{u} 1 2 3) (first-rest{u} 1) (first-rest{u} 1 2) (list) (list 1))", u = u));
+                f.push(format!("(build-list {})", n));
+                f.push(format!("(list (null? (rest{u})) (cdr (rest{u} 1)) (cdr (cdr (cdr (rest{u} 1 2 3)))) (apply rest{u} '(7 8)))", u = u));
+            }
             _ => {
                 // nested data with sharing, partially dropped
                 f.push(format!("(define t{u} (let ((shared (build-list {m}))) (list shared (vector shared shared) (cons shared '()))))", u = u, m = m));
@@ -88,6 +110,31 @@ pub fn session(rng: &mut Rng) -> (Vec<String>, Vec<String>) {
         }
     }
     (f, tags)
+}
+
+/// One top-level form that builds live data beyond one heap chunk, lets an old object refer to a young one and reads
+/// everything back -- in fewer than 8192 instructions, so that an uninterrupted run meets no periodic collection
+/// while a sliced run collects at slice ends (C13).
+pub fn big_form(rng: &mut Rng) -> (Vec<String>, Vec<String>) {
+    let n = 2600 + rng.below(1200);
+    let h = 300 + rng.below(600);
+    let m = 300 + rng.below(500);
+    let k = n + 10 + rng.below(100);
+    let f = vec![
+        format!(
+            "(let ((keep (append (vector->list (make-vector {n} 1)) (vector->list (make-vector {h} 2))))) \
+               (let ((old (list-tail keep {k}))) \
+                 (length (vector->list (make-vector {m} 0))) \
+                 (set-cdr! old (list 5 6 7)) \
+                 (length (vector->list (make-vector {m2} 0))) \
+                 (let ((box (vector (list 'young (car old))))) \
+                   (length (vector->list (make-vector {m} 0))) \
+                   (list (apply + keep) (length keep) (vector-ref box 0)))))",
+            n = n, h = h, k = k, m = m, m2 = m * 2
+        ),
+        "(+ 1 2)".to_string(),
+    ];
+    (f, vec!["alloc-bigform".into()])
 }
 
 /// Live data larger than one heap chunk (8192 cells): the heap has to grow, collections run over several chunks,
